@@ -54,6 +54,32 @@ def volatile_attrs(ctx):
     return out
 
 
+def is_first_seen_idiom(ctx, site):
+    """`o.a = None` ... for x in xs: if o.a is None: o.a = f(x)`: the attribute is reset by the same call
+    before the guard on every path, so nothing survives from an earlier call - the value of the first
+    element, not a cache"""
+    if site.kind != 'attr-none' or site.guard is None:
+        return False
+    fl = ctx.flow(site.func)
+    gid = fl.cfg.node_of(site.guard)
+    if gid is None:
+        return False
+    resets = set()
+    for st in walk_no_nested(site.func.node):
+        if isinstance(st, ast.Assign) and isinstance(st.value, ast.Constant) and st.value.value is None and \
+           any(isinstance(t, ast.Attribute) and t.attr == site.attr and norm(t.value) == site.owner for t in st.targets):
+            nid = fl.node_id_of(st)
+            if nid is not None and nid != gid:
+                resets.add(nid)
+    # the reset lies outside the guarded loop and every path to the guard passes it
+    inside = set()
+    for hid, (body_ids, after) in fl.cfg.loops.items():
+        if gid in body_ids:
+            inside |= body_ids
+    resets -= inside
+    return bool(resets) and fl.cfg.must_pass(gid, resets)
+
+
 def run_cache_rule(ctx, ck, only=None, rule='R-CACHE.owner-only'):
     """R-CACHE over all memo sites (or those whose key is in `only`)"""
     sites = find_memo_sites(ctx.model, ctx)
@@ -63,7 +89,7 @@ def run_cache_rule(ctx, ck, only=None, rule='R-CACHE.owner-only'):
         key = s.key
         if only is not None and key not in only:
             continue
-        if is_registration_idiom(s):
+        if is_registration_idiom(s) or is_first_seen_idiom(ctx, s):
             continue
         c = seen.get(key, 0)
         seen[key] = c + 1
